@@ -55,7 +55,7 @@ def run(ctx):
   rule_window(ctx)
   # results are indexed by the position of the artifact in the list that was searched: lists of different length raise IndexError (shared with C02)
   rule_invert(ctx)
-  ctx.expect("R-C18-INVERT", 2, "affine Add and Double")
+  ctx.expect("R-C18-INVERT", 3, "affine Add and Double + BatchInverse inputs")
   rule_shift(ctx)
   ctx.expect("R-C18-SHIFT", 2, "TransformOrderLen and the comb offsets")
   from . import c02
@@ -466,7 +466,43 @@ def rule_invert(ctx):
                  "raises ZeroDivisionError when the operand is a non-zero multiple of the prime or 0: no path condition makes %r non-zero modulo self.mod, and "
                  "unreduced artifact coordinates reach this function: %s" % (as_poly(bad.data["args"][0]), " ; ".join(chain))))
   ctx.extra["raw_inversion_sites"] = n_sites
-
+  # BatchInverse skips only entries that are 0 or None *as integers* and multiplies everything else into one product: an entry that is a non-zero
+  # multiple of the prime makes the shared inversion fail.  Its callers must therefore hand it canonical residues, never raw coordinate arithmetic.
+  bi = cls.methods.get("BatchInverse")
+  if bi is not None:
+    bad = []
+    n_calls = 0
+    for m in sorted(tainted):
+      fm = cls.methods[m]
+      Tl = ct.local.get(m, set())
+      for call in ast.walk(fm.node):
+        if not (isinstance(call, ast.Call) and isinstance(call.func, ast.Attribute) and call.func.attr == "BatchInverse" and call.args):
+          continue
+        n_calls += 1
+        arg = call.args[0]
+        exprs = []
+        if isinstance(arg, ast.Name):
+          # what the list holds when it is handed over: bindings and element stores that precede the call in the source
+          for n_ in ast.walk(fm.node):
+            if isinstance(n_, ast.Assign) and getattr(n_, "lineno", 0) < call.lineno:
+              for t in n_.targets:
+                r = t
+                while isinstance(r, ast.Subscript):
+                  r = r.value
+                if isinstance(r, ast.Name) and r.id == arg.id:
+                  exprs.append(n_.value)
+        else:
+          exprs.append(arg)
+        # taint of those expressions, with the list itself taken as clean (its later, post-inversion contents do not count)
+        T2 = set(Tl) - ({arg.id} if isinstance(arg, ast.Name) else set())
+        for ex in exprs:
+          if ct.expr(ex, T2, {"mod"}):
+            bad.append("%s line %d: `%s`" % (m, getattr(ex, "lineno", call.lineno), norm(ex)[:60]))
+    chain = ct.chain(bad[0].split(" ")[0], sorted(tainted[bad[0].split(" ")[0]])[0]) if bad else []
+    ctx.record(R, bi.where, "entries handed to BatchInverse are reduced modulo the prime", not bad,
+               "%d call sites in methods that see artifact coordinates: every denominator is reduced modulo self.mod (or a Jacobian z)" % n_calls if not bad else
+               "unreduced artifact coordinates are put into the list whose product is inverted (a non-zero multiple of the prime is not skipped by `if v:`): %s ; reached through %s" %
+               ("; ".join(bad[:3]), " ; ".join(chain)))
 
 def nonzero_mod(d, M, facts):
   for fc in facts:
